@@ -3,7 +3,7 @@
 A spec is plain JSON so a shrunk failing case *is* the replay file.
   array   {"dt": "<f8", "shape": [n] | [n, w], "hex": "..."} or {"dt":..., "shape":..., "pat": [a, b]}
           optional "layout": "C" | "F" | "strided" | "neg" | "ro" | "view"
-  datetime {"$dt": "2003-12-31T09:30:00.123456", "tz": minutes east of UTC | null}
+  datetime {"$dt": "2003-12-31T09:30:00.123456", "tz": minutes east of UTC | null} or {"$dt":.., "zone": "Europe/Berlin", "fold": 0|1}
   reference {"$ref": op_index}          (an earlier op of the same logical file)
   enum member {"$enum": ["Unit", "METER"]}   (member name of dliswriter.enums.<class>)
 """
@@ -82,9 +82,22 @@ def enc_datetime(dt):
 
 def dec_datetime(j):
     dt = datetime.fromisoformat(j['$dt'])
+    if j.get('zone'):
+        # a named zone (zoneinfo): the offset depends on the date, and on `fold` inside a repeated hour
+        from zoneinfo import ZoneInfo
+        return dt.replace(tzinfo=ZoneInfo(j['zone']), fold=j.get('fold', 0))
     if j.get('tz') is not None:
         dt = dt.replace(tzinfo=timezone(timedelta(minutes=j['tz'])))
     return dt
+
+
+def zones_available():
+    try:
+        from zoneinfo import ZoneInfo
+        ZoneInfo('Europe/Berlin'), ZoneInfo('America/New_York'), ZoneInfo('Australia/Sydney')
+        return True
+    except Exception:
+        return False
 
 
 def is_dt(j):
